@@ -303,9 +303,9 @@ Lemma swap_one x y m m' : swap_okb a x y = true -> Eq0 a m m' ->
   Eq0 a (exec_stmt orc x (exec_stmt orc y m)) (exec_stmt orc y (exec_stmt orc x m')).
 Proof.
   intros H HR. destruct x as [d e| |a' o i fs| | | | |]; try discriminate; cbn [swap_okb] in H.
-  - apply andb_true_iff in H as [H H3]. apply andb_true_iff in H as [H1 H2].
+  - apply andb_true_iff in H as [H _]. apply andb_true_iff in H as [H H3]. apply andb_true_iff in H as [H1 H2].
     apply swap_pure; [apply reads_offb_sound; exact H1|apply negb_mem_off; exact H2|apply noneb_notin; exact H3|exact HR].
-  - apply andb_true_iff in H as [H H3]. apply andb_true_iff in H as [H1 H2]. apply Nat.eqb_eq in H1. subst a'.
+  - apply andb_true_iff in H as [H _]. apply andb_true_iff in H as [H H3]. apply andb_true_iff in H as [H1 H2]. apply Nat.eqb_eq in H1. subst a'.
     apply swap_setup; [exact H2|apply noneb_notin; exact H3|exact HR].
 Qed.
 
